@@ -1,11 +1,12 @@
 """C11 — oracle votes are commit-reveal bound, period-exact and feeder-authorised."""
 import json
+import unicodedata
 
 ID = "C11"
 HARNESS_TEST = "TestC11.*"
 GEN = "c11"
 COQ_MODEL = ["C11/Check.v", "C11/Sites.v", "Gen/C11Facts.v"]
-COQ_PROOF_DEPS = ["C11/Proofs.v", "C11/Examples.v"]
+COQ_PROOF_DEPS = ["C11/Proofs.v", "C11/ProofsPreimage.v", "C11/Examples.v"]
 COQ_OBLIG = ["C11/Property.v", "Gen/C11Oblig.v"]
 CASES_HEADER = "Require Import Nib.C11.Model Nib.C11.Spec Nib.C11.Check."
 CASE_TYPE = "case"
@@ -14,7 +15,12 @@ VIOLATES_FN = "violates"
 RULE = ("TestC11: a case = one history (13-130 events) of oracle messages run on the real msg server of a NibiruTestApp at explicit "
         "block heights around vote-period boundaries: prevotes (honest / upper-case hex / hash without validator / hash "
         "copied from another validator / garbage), votes (matching reveal, wrong salt, textually different but "
-        "equal-parsing rates, other rates, unparsable or non-whitelisted rates), feeder delegations, VotePeriod / "
+        "equal-parsing rates, other rates, unparsable or non-whitelisted rates), salts and rate strings as BYTE strings "
+        "(about a third of the commitments are over salts with leading / trailing / inner white space incl. tab, "
+        "newline, NBSP, NEL, upper/lower case, NFC/NFD spellings, NUL / zero-width characters, invalid UTF-8; reveals by a "
+        "non-identical variant that TrimSpace / case fold / NFC / NUL-strip would map to the committed string, followed by "
+        "the byte-exact reveal; rate strings with surrounding white space, upper case, leading zeros), the commitment "
+        "always computed by the driver's own SHA-256 over the exact bytes salt:rates:valoper, feeder delegations, VotePeriod / "
         "whitelist edits by the sudo root or a stranger, staking transitions through the real staking keeper + EndBlocker (jail / unjail, MaxValidators shrunk so that "
         "the weakest validators are displaced = Unbonding not jailed, full self-undelegation, unbonding time passing = "
         "Unbonded / removed, create validator), oracle EndBlocker per height, "
@@ -22,7 +28,8 @@ RULE = ("TestC11: a case = one history (13-130 events) of oracle messages run on
         "validator. non-trivial = the history has an accepted vote AND a vote refused for period / hash / feeder / "
         "not-bonded / no-prevote / unknown-pair (or, tx level, for a foreign signature); distinct = distinct input. "
         "TestC11Tx: the same messages as signed transactions through BeginBlock/DeliverTx/EndBlock/Commit, the signing "
-        "key chosen independently of the feeder / operator field. corpus/C11: 56 attack shapes for VotePeriod 1,2,3,5")
+        "key chosen independently of the feeder / operator field (salts incl. white-space variants that pass ValidateBasic). "
+        "corpus/C11: attack shapes for VotePeriod 1,2,3,5 (attacks.json; bytes.json = byte-exact reveal shapes)")
 ASSUMPTIONS = [
     "the msg.Feeder / msg.Operator field is the authenticated signer (GetSigners is checked by the driver; signature "
     "verification itself is the SDK ante handler)",
@@ -37,6 +44,9 @@ TRUSTED = [
     "the handlers (non-test code under x/, app/, eth/, cmd/; test_utils.go, testutil, simulation, *.pb.go excluded); "
     "coq/C11/Sites.v maps each allowed writer to the model handler standing for it",
     "reference hash = crypto/sha256 of salt:rates:valoper computed by the driver (not the repo's GetAggregateVoteHash)",
+    "harness/gen/c11 second part: go/ast data-flow of the hash preimage inside types.GetAggregateVoteHash (fmt.Sprintf / + / "
+    "strings.Join flattened into literals and arguments, local definitions followed) and of the arguments of its callers in "
+    "x/oracle/keeper; coq/C11/Sites.v preimage_exact states what they must be for the model's preimage parameter to be the identity",
 ]
 
 NADDR = 8
@@ -130,6 +140,25 @@ def to_coq_case(rec):
 MECH = {"period", "hash", "feeder", "notactive", "noprevote", "unknownpair"}
 
 
+def _salt(op):
+    if op.get("salt_hex"):
+        try:
+            return bytes.fromhex(op["salt_hex"]).decode("latin-1")
+        except ValueError:
+            pass
+    return op.get("salt", "")
+
+
+def _norm(s):
+    """what a 'hygiene' normalisation would make of a string: NFC, no NUL / zero-width, trimmed, inner blanks collapsed, case folded"""
+    s = unicodedata.normalize("NFC", s).replace("\x00", "").replace("\u200b", "")
+    return " ".join(s.split()).casefold()
+
+
+def _plain(s):
+    return s.isascii() and s.isprintable() and s == s.strip() and "  " not in s
+
+
 def nontrivial(rec):
     acc = False
     rej = False
@@ -150,8 +179,26 @@ def classify(rec):
     deleg = {}
     former = {}
     vstate = rec["obs"]["init"].get("vstate") or ["?"] * NADDR
+    committed = {}
     for op, o in zip(ops, rec["obs"]["steps"]):
         k = op["kind"]
+        if k == "prevote" and o["acc"]:
+            committed[_aid(op, "val")] = (_salt(op), op.get("rates", "")) if op.get("hash_mode") == "honest" and _aid(op, "hash_for") == _aid(op, "val") else None
+            if not _plain(_salt(op)):
+                ks.append("commit:salt-with-odd-bytes")
+        if k == "vote":
+            c = committed.get(_aid(op, "val"))
+            res = "ok" if o["acc"] else "refused:" + o["reason"]
+            if c is not None:
+                sa, ra = _salt(op), op.get("rates", "")
+                if sa != c[0] and _norm(sa) == _norm(c[0]) and ra == c[1]:
+                    ks.append("reveal:salt-byte-variant-of-committed:" + res)
+                elif sa == c[0] and ra != c[1] and _norm(ra) == _norm(c[1]):
+                    ks.append("reveal:rates-byte-variant-of-committed:" + res)
+                elif sa == c[0] and ra == c[1] and not _plain(sa):
+                    ks.append("reveal:byte-exact-odd-salt:" + res)
+            if o["acc"]:
+                committed.pop(_aid(op, "val"), None)
         if k in ("prevote", "vote"):
             f, v = _aid(op, "feeder"), _aid(op, "val")
             who = "validator" if f == v else "feeder" if deleg.get(v) == f else "other"
@@ -253,6 +300,14 @@ def model_search(chk):
         out.append({"vp0": vp, "nvals": 3, "ops": [pv(base, 0, 0, rates=RN), vt(base + vp, 0, 0, rates=R)]})  # committed to the normalised spelling
         out.append({"vp0": vp, "nvals": 3, "ops": [pv(base, 0, 0, rates=R), vt(base + vp, 0, 0, rates=RN)]})
         out.append({"vp0": vp, "nvals": 3, "ops": [pv(base, 0, 0), pv(base, 1, 1, hfor=0), vt(base + vp, 0, 0), vt(base + vp, 1, 1)]})  # copy-cat
+        # byte-exact reveal: a commitment over S is revealed by a non-identical variant (must be refused) and vice versa
+        for a, b in (("ab", "ab "), ("ab", " ab"), ("ab", "ab\n"), ("a", "\ta"), ("ab", "AB"), ("\u00e9", "e\u0301"), ("a", "a\x00"),
+                     ("a b", "a  b"), ("x", "x\u00a0"), (" ", "  ")):
+            out.append({"vp0": vp, "nvals": 3, "ops": [pv(base, 0, 0, salt=a), vt(base + vp, 0, 0, salt=b), vt(base + vp, 0, 0, salt=a)]})
+            out.append({"vp0": vp, "nvals": 3, "ops": [pv(base, 0, 0, salt=b), vt(base + vp, 0, 0, salt=a), vt(base + vp, 0, 0, salt=b)]})
+        for tail in (" ", "\n", "\r\n", "\t"):
+            out.append({"vp0": vp, "nvals": 3, "ops": [pv(base, 0, 0, rates=R), vt(base + vp, 0, 0, rates=R + tail), vt(base + vp, 0, 0, rates=R)]})
+            out.append({"vp0": vp, "nvals": 3, "ops": [pv(base, 0, 0, rates=R + tail), vt(base + vp, 0, 0, rates=R)]})
         out.append({"vp0": vp, "nvals": 3, "ops": [pv(base, 0, 0, mode="noval"), vt(base + vp, 0, 0)]})
         out.append({"vp0": vp, "nvals": 3, "ops": [pv(base, 5, 0), pv(base, 0, 0), vt(base + vp, 5, 0)]})  # stranger
         out.append({"vp0": vp, "nvals": 3, "ops": [{"kind": "delegate", "h": base, "val": 0, "delegate": 5}, pv(base, 5, 0),
@@ -295,7 +350,17 @@ MANIFEST = {
                  "implementation traces themselves. A second driver sends the messages as signed transactions through "
                  "DeliverTx with foreign signers. Generated facts (Gen/C11Facts.v, re-extracted each run) + "
                  "C11_store_writers_are_the_modelled_ones / C11_handlers_reached_only_as_modelled: no other code writes "
-                 "the commit-reveal stores or calls the handlers."),
+                 "the commit-reveal stores or calls the handlers. Salts and rate strings are ids of EXACT byte strings; the model "
+                 "carries a preimage parameter pi (which string is hashed in the place of the revealed salt / rate string): "
+                 "C11_reveal_exact_iff_preimage_exact and C11_exact_reveal_accepted_iff_preimage_exact (the hash clause of the "
+                 "property holds for all states and votes IFF pi is the identity), C11_normalising_preimage_refuted / "
+                 "C11_normalising_preimage_refuses_exact_reveal (any normalising variant — TrimSpace, case fold, re-rendered "
+                 "tuples — is refuted by a two-message history), C11_trim_preimage_refuted (the trimming variant, concretely); "
+                 "the pinned tree's preimage is re-extracted on every run (hash_preimage, vote_hash_calls) and "
+                 "C11_hash_preimage_exact / C11_no_transform_before_hashing / C11_current_tree_model_is_exact state that nothing "
+                 "is applied to salt or rates between the message and the hash. The driver computes every commitment with its "
+                 "own SHA-256 over the exact bytes and reveals committed strings by non-identical byte variants (white space, "
+                 "case, Unicode normal form, NUL) as well as byte-exactly."),
         "design_ref": "DESIGN.md §5 C11",
     },
     "level_note": ("Trusted: Coq kernel + vm_compute; the Go driver (canonical ids, its own SHA-256 reference hash, error "
